@@ -520,3 +520,103 @@ def c02_cases(thorough):
       if null_safe(c) and not any(r.distinct and any(e[0] != 'aggr' and 'y' in lang.evars(e) for _, e in r.args) for r in c.program.rules()):
         c.dbs += NULL_DBS_AB
       yield c
+
+
+# ======================================================================================== C03 recursion
+from .lang import Ann
+
+
+def E(a, b): return Lit('E', a, b)
+n_, m_, d_ = V('n'), V('m'), V('d')
+
+
+def rec_shapes():
+  """name -> (rules, predicates to check, kind, cost class). kind: 'set' (distinct, monotone) | 'bag' | 'agg'.
+  cost: 'lin' (cheap to unfold deep) | 'heavy' (non-linear / flat: deep unfolding compiles slowly)."""
+  S = {}
+  def D(*a, **k): return R(*a, distinct=True, **k)
+  S['tc_right'] = ([D('T', x, y, body=(E(x, y),)), D('T', x, z, body=(E(x, y), Lit('T', y, z)))], ['T'], 'set', 'lin')
+  S['tc_left'] = ([D('T', x, y, body=(E(x, y),)), D('T', x, z, body=(Lit('T', x, y), E(y, z)))], ['T'], 'set', 'lin')
+  S['tc_nonlin'] = ([D('T', x, y, body=(E(x, y),)), D('T', x, z, body=(Lit('T', x, y), Lit('T', y, z)))], ['T'], 'set', 'heavy')
+  S['tc_bag'] = ([R('T', x, y, body=(E(x, y),)), R('T', x, z, body=(E(x, y), Lit('T', y, z)))], ['T'], 'bag', 'lin')
+  S['tc_one_rule'] = ([D('T', x, z, body=(('or', ((E(x, z),), (E(x, y), Lit('T', y, z)))),))], ['T'], 'set', 'lin')
+  S['reach_from_1'] = ([D('T', N(1)), D('T', y, body=(Lit('T', x), E(x, y)))], ['T'], 'set', 'lin')
+  S['counter_bag'] = ([R('T', N(0)), R('T', Bin('+', n_, N(1)), body=(Lit('T', n_),))], ['T'], 'bag', 'lin')
+  S['counter_set'] = ([D('T', N(0)), D('T', Bin('+', n_, N(1)), body=(Lit('T', n_), Cmp('<', n_, N(12))))], ['T'], 'set', 'lin')
+  S['counter_two'] = ([R('T', N(0), N(1)), R('T', Bin('+', n_, N(1)), Bin('*', m_, N(2)), body=(Lit('T', n_, m_), Cmp('<', n_, N(40))))], ['T'], 'bag', 'lin')
+  S['with_intermediate'] = ([R('Step', x, y, body=(E(x, y), Cmp('!=', x, y))), D('T', x, y, body=(Lit('Step', x, y),)), D('T', x, z, body=(Lit('T', x, y), Lit('Step', y, z))),
+                             R('Out', x, body=(Lit('T', x, x),))], ['T', 'Out'], 'set', 'lin')
+  S['mutual_cut'] = ([D('T', x, y, body=(E(x, y),)), D('T', x, z, body=(Lit('U', x, y), E(y, z))), D('U', x, y, body=(Lit('T', x, y),))], ['T', 'U'], 'set', 'lin')
+  S['even_odd'] = ([D('Ev', N(1)), D('Od', y, body=(Lit('Ev', x), E(x, y))), D('Ev', y, body=(Lit('Od', x), E(x, y)))], ['Ev', 'Od'], 'set', 'lin')
+  S['ring3'] = ([D('P', x, body=(E(x, x),)), D('P', y, body=(Lit('R_', x), E(x, y))), D('Q', y, body=(Lit('P', x), E(x, y))), D('R_', y, body=(Lit('Q', x), E(x, y)))],
+                ['P', 'Q', 'R_'], 'set', 'lin')
+  S['mutual_flat'] = ([D('T', x, y, body=(E(x, y),)), D('T', x, z, body=(Lit('T', x, y), E(y, z))), D('T', x, z, body=(Lit('U', x, y), E(y, z))),
+                       D('U', x, y, body=(E(y, x),)), D('U', x, z, body=(Lit('T', x, y), Lit('U', y, z))), D('U', x, z, body=(Lit('U', x, y), E(y, z)))], ['T', 'U'], 'set', 'heavy')
+  S['mutual_flat_small'] = ([D('P', x, body=(E(x, x),)), D('P', y, body=(Lit('P', x), E(x, y))), D('P', y, body=(Lit('Q', x), E(y, x))),
+                             D('Q', y, body=(Lit('P', x), E(x, y))), D('Q', y, body=(Lit('Q', x), E(x, y), Cmp('!=', x, y)))], ['P', 'Q'], 'set', 'heavy')
+  S['flat_bag'] = ([R('P', N(0)), R('P', Bin('+', n_, N(1)), body=(Lit('P', n_), Cmp('<', n_, N(3)))), R('P', Bin('+', n_, N(2)), body=(Lit('Q', n_), Cmp('<', n_, N(3)))),
+                    R('Q', n_, body=(Lit('P', n_),)), R('Q', Bin('+', n_, N(1)), body=(Lit('Q', n_), Cmp('<', n_, N(2))))], ['P', 'Q'], 'bag', 'heavy')
+  S['shortest_path'] = ([R('D', x, y, value=Aggr('Min', N(1)), body=(E(x, y),)), R('D', x, z, value=Aggr('Min', Bin('+', d_, N(1))), body=(Lit('D', x, y, logica_value=d_), E(y, z)))],
+                         ['D'], 'agg', 'lin')
+  S['shortest_path_fn'] = ([R('D', x, y, value=Aggr('Min', N(1)), body=(E(x, y),)), R('D', x, z, value=Aggr('Min', Bin('+', Call('D', x, y), N(1))), body=(E(y, z),))],
+                            ['D'], 'agg', 'lin')
+  S['reach_max_multibody'] = ([R('Rch', x, value=Aggr('Max', N(1)), body=(E(x, x),)), R('Rch', y, value=Aggr('Max', Bin('+', Call('Rch', x), N(0))), body=(E(x, y),))], ['Rch'], 'agg', 'lin')
+  S['count_paths'] = ([R('C', x, y, value=Aggr('Sum', N(1)), body=(E(x, y),)), R('C', x, z, value=Aggr('Sum', V('c')), body=(Lit('C', x, y, logica_value=V('c')), E(y, z), Cmp('<', y, z)))], ['C'], 'agg', 'lin')
+  S['through_functor'] = ([D('T', x, y, body=(E(x, y),)), D('T', x, z, body=(E(x, y), Lit('T', y, z))), R('E2', y, x, body=(E(x, y),)), lang.Functor('M', 'T', (('E', 'E2'),))], ['T', 'M'], 'set', 'lin')
+  S['consumer_of_recursive'] = ([D('T', x, y, body=(E(x, y),)), D('T', x, z, body=(E(x, y), Lit('T', y, z))), R('Cnt', x, Aggr('Count', y), body=(Lit('T', x, y),), distinct=True),
+                                 R('Neg', x, body=(E(x, y), Not(Lit('T', y, x))))], ['Cnt', 'Neg'], 'agg', 'lin')
+  S['two_components'] = ([D('T', x, y, body=(E(x, y),)), D('T', x, z, body=(E(x, y), Lit('T', y, z))), D('W', x, body=(Lit('T', x, x),)), D('W', y, body=(Lit('W', x), Lit('T', x, y)))], ['T', 'W'], 'set', 'lin')
+  return S
+
+
+def graphs3():
+  """all digraphs on {1,2,3} with loops, up to isomorphism (104)"""
+  cells = [(a, b) for a in (1, 2, 3) for b in (1, 2, 3)]
+  seen = set(); out = []
+  for mask in range(512):
+    g = frozenset(cells[i] for i in range(9) if mask >> i & 1)
+    canon = min(tuple(sorted((p[a - 1], p[b - 1]) for a, b in g)) for p in itertools.permutations((1, 2, 3)))
+    if canon in seen: continue
+    seen.add(canon); out.append(sorted(g))
+  return out
+
+
+def chain_graphs(depth):
+  out = []
+  for n in sorted({max(2, depth - 1), depth, depth + 1, depth + 2, depth + 3}):
+    out.append([(i, i + 1) for i in range(1, n)])
+    out.append([(i, i + 1) for i in range(1, n)] + [(n, 1)])
+  return out
+
+
+def c03_cases(thorough):
+  S = rec_shapes()
+  G3 = graphs3()
+  quick_depths = {'lin': [None, 1, 2, 3, 7, 20, 21, 22], 'heavy': [1, 2, 3]}
+  thorough_depths = {'lin': [None, 1, 2, 3, 7, 8, 19, 20, 21, 22, 25, 30], 'heavy': [None, 1, 2, 3, 21, 22]}
+  for name, (rules, preds, kind, cost) in S.items():
+    depths = (thorough_depths if thorough else quick_depths)[cost]
+    rec_preds = sorted({r.pred for r in rules if isinstance(r, Rule)})
+    for depth in depths:
+      d = 8 if depth is None else depth
+      if kind == 'bag' and name == 'tc_bag' and d > 3: continue     # path counts explode on cyclic graphs
+      anns = [None]
+      if depth is not None:
+        ev = refsem.Evaluator([r for r in rules if isinstance(r, Rule)], {'E': (['col0', 'col1'], [])})
+        comps = sorted({ev.component(p) for p in rec_preds if ev.component(p)}, key=sorted)
+        # annotate the first member of every component; in thorough also each other member of the first component
+        anns = [[sorted(c)[0] for c in comps]]
+        if thorough and comps and len(comps[0]) > 1 and depth in (2, 21):
+          anns += [[m] + [sorted(c)[0] for c in comps[1:]] for m in sorted(comps[0])[1:]]
+      for ann in anns:
+        stmts = list(rules)
+        depths_map = {}
+        if ann:
+          for p in ann:
+            stmts.append(Ann('@Recursive(%s, %d);' % (p, depth)))
+            for q in ev.component(p): depths_map[q] = depth
+        graphs = list(G3) if kind != 'bag' or name != 'tc_bag' else [g for g in G3 if all(a < b for a, b in g)]
+        graphs += chain_graphs(d)
+        if name in ('counter_bag', 'counter_set', 'counter_two', 'flat_bag'): graphs = [[]]
+        c = Case('REC/' + name, Program(stmts), preds, schema='E', dbs=[{'E': g} for g in graphs], depths=depths_map, info=dict(kind=kind, depth=d, annotated=ann, shape=name))
+        yield c
